@@ -111,6 +111,12 @@ FIRST = {
     "C11-32": "C05.R4 / R21 / R18 at once; **C11 missed**; C11.R13 added",
     "C13-31": "C05.R4 / R21 / R18 at once; **C13 missed**; C13.R7 = C05.R18 (a) added",
     "C13-32": "C05.R4 at once; **C13 missed**; C13.R7 with a may-alias analysis (`max(a._scale, b._scale)` of the builtins returns one of its arguments; a helper's k-th returned element)",
+    "C05-41": "reported by the rules as they stood (C05.R8 dispatch target, C05.R18 (e), C13.R3 global write)",
+    "C05-42": "reported at first for the wrong reason (the fast path's call was read as the re-issued op); C05.R8 clause added: the mutating op applied to an inner tensor of the destination",
+    "C05-43": "**missed at first**; C05.R8 clause added: a destination recorded under a test on the identity of the value",
+    "C05-44": "**undecided at first**; C05.R8 clause added: the schema analysis memoised under `_schema.name`; the schema facts are read through helpers of the module",
+    "C13-41": "C05.R8 at once; **C13 missed**: the call graph did not resolve names imported inside a function (the dispatch imports its helpers locally) - fixed in the effect engine, C13.R3 then reports the global write",
+    "C13-42": "C10.R11 at once; **C13 missed**; C13.R8 = C10.R11 (buffer clause) added",
     "C11-22": "**undecided at first**; C11.R12 added (a sum evaluated over `range(n // k)` blocks handles the `n % k` remaining rows), with built-in positive and negative examples",
     "C13-22": "**missed at first** by every property; random draws are an effect of the call graph (they read and advance the global generator): reported by C13.R3 / C13.R4 (and C14.R7)",
     "C14-21": "C02.R9 at once; **C14 undecided**; the purity rules are re-checked under C14.R7",
